@@ -70,6 +70,8 @@ int main(int argc, char** argv)
                 fsh::run_profile(scn, out);
             else if (g.at(1) == "mesh")
                 fsh::run_mesh(scn, out);
+            else if (g.at(1) == "pool")
+                fsh::run_pool(scn, out);
             else
                 throw std::logic_error("harness: bad grid kind");
         }
